@@ -46,7 +46,7 @@ PROPERTIES = {
         note='Trusted: Verus+Z3; extraction rewrites (serde/default attributes stripped from the enum). The argument order at the call site is not checked.',
         out=['maven_dependency_resolver/src/maven_pom_done.rs', 'clean_up_dependencies / Forest::breadth_first_retain', 'coord.rs printing/parsing', 'call site of the_scope_table in get_dependencies_tree (async)']),
     'C20': dict(
-        level='proof', verus=['c20len', 'c20ser'], kani=[],
+        level='proof', verus=['c20len', 'c20ser', 'c20rd'], kani=[],
         technique=VERUS_TECH + ' (on the rustc macro expansion of raw_class_file)',
         claim='Unbounded proof, per flat attribute variant of the macro-generated AttributeInfo::_write (ConstantValue, Exceptions, EnclosingMethod, Synthetic, Signature, SourceFile, SourceDebugExtension, Deprecated, '
               'ModulePackages, ModuleMainClass, NestHost, NestMembers, PermittedSubclasses, Other): the bytes appended are a well-formed attribute_info whose attribute_length equals the number of bytes that follow, '
